@@ -70,6 +70,24 @@ class Item:
         self.result = None
 
 
+import threading
+PREP_LOCK = threading.Lock()      # the compiler and the translator run in one thread at a time; TLC subprocesses overlap
+_COMPILED = {}                    # (src, w, s, unchecked, opt) -> assembly lines | exception; shared by presize and prepare
+
+
+def compile_cached(it):
+    from . import hidc_api
+    ck = (it.src, it.w, it.s, it.unchecked, tuple(sorted(it.opt.items())))
+    if ck not in _COMPILED:
+        if len(_COMPILED) > 30000:
+            _COMPILED.clear()
+        try:
+            _COMPILED[ck] = hidc_api.compile_src(it.src, w=it.w, s=it.s, unchecked=it.unchecked, **it.opt)
+        except (hidc_api.Rejected, hidc_api.Crashed) as e:
+            _COMPILED[ck] = e
+    return ck, _COMPILED[ck]
+
+
 def prepare(items, w):
     """Compile (working tree) and translate every item; returns (export cases, defs text).  Items that are
     rejected by the compiler or outside the modelled envelope get .skip set."""
@@ -80,14 +98,7 @@ def prepare(items, w):
     cases_txt = []
     ecases = []
     for it in items:
-        ck = (it.src, it.w, it.s, it.unchecked, tuple(sorted(it.opt.items())))
-        if ck not in compiled:
-            try:
-                compiled[ck] = hidc_api.compile_src(it.src, w=it.w, s=it.s, unchecked=it.unchecked, **it.opt)
-            except hidc_api.Rejected as e:
-                compiled[ck] = e
-            except hidc_api.Crashed as e:
-                compiled[ck] = e
+        ck, compiled[ck] = compile_cached(it)
         if isinstance(compiled[ck], Exception):
             it.skip = 'compile: %s' % compiled[ck]
             continue
@@ -124,11 +135,12 @@ def run_refine(items, w=2, monitors=True, max_level=6000, max_alloc=256, timeout
     item: dict(status, hst, agree, halted, fault, alarm, level, wrap, mobs, hobs) or None (out of fuel)."""
     d = keep or common.scratch('hvref_')
     try:
-        ecases, defs = prepare(items, w)
-        if not ecases:
-            return None
-        write_batch(d, 'Batch', 'Refine', ecases, w, defs=defs,
-                    consts={'Monitors': 'TRUE' if monitors else 'FALSE', 'MaxLevel': max_level, 'MaxAlloc': max_alloc})
+        with PREP_LOCK:
+            ecases, defs = prepare(items, w)
+            if not ecases:
+                return None
+            write_batch(d, 'Batch', 'Refine', ecases, w, defs=defs,
+                        consts={'Monitors': 'TRUE' if monitors else 'FALSE', 'MaxLevel': max_level, 'MaxAlloc': max_alloc})
         r = tlc.run(d, 'Batch', timeout=timeout, workers=workers)
         if (r.errors and not r.prints) or (not r.prints and not r.timed_out):
             raise common.Machinery('TLC failed: %s\n%s' % (r.errors[:3], r.out[-2500:]))
